@@ -6,5 +6,6 @@ CONSTANTS
   KMaxLinks = 40
   EmitCases = TRUE
   RefuseDotNames = FALSE
+  RefuseOPathCreate = TRUE
 INVARIANTS TypeOK CaseOut
 CHECK_DEADLOCK FALSE
